@@ -24,7 +24,9 @@
      runs WithOffset / Create on the elements of its Batches (bal_loop on its own batch cells).
    * Flatten wraps the elements of originalFile.Batches / the addresses of the elements of
      originalFile.IATBatches; Copy builds the new batch on the address of a COPY of the header
-     (addr:deref: — its own header cell) and Consume passes the consumed batch's entries
+     (addr:deref: — its own header cell; since fix 7eb521a1 the value returned is NewBatch's or, when
+     NewBatch rejects the SEC code, ConvertBatchType's of a new Batch over the same header copy — the
+     table records the last assignment) and Consume passes the consumed batch's entries
      themselves (elem: of GetEntries() / range: over .Entries) to AddEntry: flat_group makes a
      new batch cell over the receiver's entry cells; AddToFile runs Create on that new batch.
    * segmentFileBatches passes the loop variable over f.Batches itself to AddBatch (KWholeC/KWholeD:
@@ -116,7 +118,7 @@ Definition expected_share_facts : list sfact :=
   ; SF "mergeableBatcher.Consume" "set:BatchNumber" "call:field:recv.batcher.GetHeader#0 <- field:call:assert:call:param:mergeableToConsume.GetBatch#0.GetHeader#0.BatchNumber"
   ; SF "mergeableBatcher.Copy" "pass:Consume/0" "recv"
   ; SF "mergeableBatcher.Copy" "pass:NewBatch/0" "addr:deref:call:field:recv.batcher.GetHeader#0"
-  ; SF "mergeableBatcher.Copy" "ret0" "new:mergeableBatcher{call:NewBatch#0,nil}"
+  ; SF "mergeableBatcher.Copy" "ret0" "new:mergeableBatcher{call:ConvertBatchType#0,nil}"
   ; SF "mergeableBatcher.GetBatch" "ret0" "field:recv.batcher"
   ; SF "mergeableIATBatch.AddToFile" "calls" "Create on field:recv.iatBatch"
   ; SF "mergeableIATBatch.AddToFile" "pass:AddIATBatch/0" "deref:field:recv.iatBatch"
